@@ -97,3 +97,8 @@ Print Assumptions C10_source_failure_paths.
 Theorem C10_source_critical_sections : V9.Race.Facts.violations = [].
 Proof. exact V9.Shape.PLocks.sites_comply_ok. Qed.
 Print Assumptions C10_source_critical_sections.
+
+(* a failed Write closes the transport: the model's LFail (the receive goroutine learns of the failure) is enabled by it *)
+Theorem C10_source_send_closes_on_write_error : V9.Shape.ShapeLib.clnt_send_closes_on_write_error = true.
+Proof. exact V9.Shape.PClient.clnt_send_closes_on_write_error_ok. Qed.
+Print Assumptions C10_source_send_closes_on_write_error.
